@@ -644,6 +644,37 @@ func degenerateGuard(ctx *Ctx, r *Report, fn *ssa.Function, rule, prim string) {
 	if n == 0 {
 		r.undecided(rule, fn.Name(), fn.Pos(), "no append of *"+prim+" found: emission idiom not recognised")
 	}
+	// a degenerate primitive drops itself, not the rest of the cell: inside the emission loop
+	// both branches of the Degenerate test stay in the loop (`break` where `continue` was meant
+	// discards the second segment of a saddle cell after a zero-length first one)
+	descs := loopDescs(fn, topoAll(fn))
+	allInstrs(fn, func(b *ssa.BasicBlock, ins ssa.Instruction) {
+		iff, ok := ins.(*ssa.If)
+		if !ok {
+			return
+		}
+		c, _ := stripNot(iff.Cond)
+		if _, isD := isCallTo(c, "Degenerate"); !isD {
+			return
+		}
+		var ld *loopDesc
+		for _, d := range descs {
+			if d.in[b] && (ld == nil || len(d.order) < len(ld.order)) {
+				ld = d
+			}
+		}
+		if ld == nil {
+			return
+		}
+		leaves := ""
+		for _, su := range b.Succs {
+			// leaving through a block that only returns the result built so far is a `break` too
+			if !ld.in[su] {
+				leaves = " a branch of the test at " + ctx.pos(branchPos(b, iff)) + " leaves the emission loop;"
+			}
+		}
+		r.check(rule, fn.Name()+"|degenerate-primitive-skips-only-itself", iff.Pos(), leaves == "", "both branches of the Degenerate test continue with the next primitive of the cell;"+leaves)
+	})
 }
 
 // interpSymmetry: interp(p1,p2,v1,v2,x) == interp(p2,p1,v2,v1,x) and its
